@@ -332,9 +332,10 @@ def line_case(world, fmt, access_args, real_lines, b64calls):
 class LogWorld:
     """a worker whose logger has a fixed clock and a given access_log_format; records every access() call"""
 
-    def __init__(self, kind, fmt):
+    def __init__(self, kind, fmt, loglevel="info"):
         import gunicorn.glogging
-        self.W = L.World(kind, access_fmt=fmt, fixed_time=True)
+        # loglevel is documented as "the granularity of Error log outputs": the access log must not depend on it
+        self.W = L.World(kind, access_fmt=fmt, fixed_time=True, extra={"loglevel": loglevel})
         self.W.__enter__()
         self.fmt = self.W.cfg.access_log_format          # the setting's validator strips the string
         self.spy = B64Spy()
@@ -493,6 +494,9 @@ def run(ctx):
         search(ctx)
 
 
+LOGLEVELS = ["info", "warning", "debug", "error", "critical"]
+
+
 def record_side(ctx, quick):
     rng = ctx.rng
     lcases = []
@@ -503,25 +507,31 @@ def record_side(ctx, quick):
     app = {"acts": [("start", 200, 2), ("return",), ("write", b"ok")], "file": None}
     plan = []
     for fi, fmt in enumerate(fmts):
+        # the error-log level of the configuration: "access logging is on" at every one of them
+        lvl = LOGLEVELS[0] if fi == 0 else LOGLEVELS[(fi - 1) % len(LOGLEVELS)]
         for si, (field, data) in enumerate(sweeps):
             if fi < 2:
                 # the two fixed formats see every swept request, the worker wrapper rotating
                 if quick and fi == 1 and si % 2:
                     continue
-                plan.append((KINDS[(si + fi) % 3], fmt, field, data))
+                plan.append((KINDS[(si + fi) % 3], fmt, field, data, lvl))
             elif (si + fi) % (7 if quick else 2) == 0:
-                plan.append((KINDS[(si + fi) % 3], fmt, field, data))
+                plan.append((KINDS[(si + fi) % 3], fmt, field, data, lvl))
     worlds = {}
+    cur_lvl = None
     try:
-        for kind, fmt, field, data in plan:
+        for kind, fmt, field, data, lvl in plan:
             key = (kind, fmt)
-            if key not in worlds:
-                if len(worlds) > 12:
+            # (logging.getLogger("gunicorn.access") is one object per process: worlds of different levels are never alive together)
+            if key not in worlds or lvl != cur_lvl:
+                if len(worlds) > 12 or lvl != cur_lvl:
                     for w in worlds.values():
                         w.close()
                     worlds.clear()
-                worlds[key] = LogWorld(kind, fmt)
+                worlds[key] = LogWorld(kind, fmt, lvl)
+                cur_lvl = lvl
             LW = worlds[key]
+            ctx.hist("loglevel", lvl)
             esc, sock = LW.serve(data, app={"acts": list(app["acts"]), "file": None})
             ctx.count_case(("l", kind, fmt, data), bool(LW.calls))
             ctx.hist("swept_field", field)
@@ -533,7 +543,7 @@ def record_side(ctx, quick):
                 if len(ctx.violations) < 3:
                     ctx.violation("record-count [%s worker]: field %s: the application call completed (200 sent) but %d record(s) were written%s"
                                   % (kind, field, len(LW.calls), (" - Logger.access raised " + LW.access_errors[0]) if LW.access_errors else ""),
-                                  {"kind": "record", "worker": kind, "fmt": fmt, "data": data.decode("latin-1"), "field": field,
+                                  {"kind": "record", "worker": kind, "fmt": fmt, "data": data.decode("latin-1"), "field": field, "loglevel": lvl,
                                    "failures": [["record-count", "%d records" % len(LW.calls)]]})
             for (args, lines, b64calls) in LW.calls:
                 nlines += 1
@@ -555,7 +565,7 @@ def record_side(ctx, quick):
                     if len(ctx.violations) < 3:
                         ctx.violation("%s [%s worker]: %s" % (bad_line[0], kind, bad_line[1]),
                                       {"kind": "record", "worker": kind, "fmt": fmt, "data": data.decode("latin-1"), "field": field,
-                                       "failures": [list(bad_line)]})
+                                       "loglevel": lvl, "failures": [list(bad_line)]})
     finally:
         for w in worlds.values():
             w.close()
@@ -590,7 +600,7 @@ def search(ctx):
 
 def replay(rep):
     if rep.get("kind") == "record":
-        LW = LogWorld(rep["worker"], rep["fmt"])
+        LW = LogWorld(rep["worker"], rep["fmt"], rep.get("loglevel", "info"))
         try:
             esc, sock = LW.serve(rep["data"].encode("latin-1"))
             bad = 0
